@@ -364,6 +364,14 @@ def r5(ctx, P):
            'every zero return at end-of-file passes the update' if (w is None and stores) else
            'a successful append can return without updating last_payload_length (empty payload): the next chunk header then carries the payload_prev_length of an older chunk and backward navigation lands inside a chunk',
            w.render() if w else None)
+    # ... and only an append updates it: a payload rewritten in place (a track head table) is not the last chunk of the file
+    append_edges = set((bid, 'T' if lab == 'F' else 'F') for bid, lab in not_append)
+    for st in stores:
+        deps = control_deps_transitive(f, st.block.id)
+        guarded = any((bid, lab) in append_edges for bid, lab in deps)
+        ctx.ob('C05.5', guarded, f.name, 'last_payload_length changes only at the end of the file', st.where(),
+               'behind the fpos >= fend test' if guarded else
+               'the length of a payload that is rewritten in place (the 128-byte head table of a track) is recorded as the length of the last chunk: the next appended chunk carries it as payload_prev_length, and stepping back from that chunk (the open does so when an unclosed file ends in an INDEX) lands inside another chunk')
     # the value stored is the length just written
     for st in stores:
         rhs = strip_casts(st.store_parts()[1])
